@@ -558,6 +558,15 @@ impl Mode for RunMode {
                     why = format!("memory after the lines: [{}], expected from the lines in order: [{}]", clip(field(imp, "mem").unwrap_or("")), clip(&want_mem.join(",")));
                 } else if field(imp, "pins").unwrap_or("") != want_pins.join(",") {
                     why = format!("pin levels {} expected {}", field(imp, "pins").unwrap_or(""), want_pins.join(","));
+                } else if outcome == "stopped" || outcome == "finished" {
+                    // pause / start in arrival order: the guest executes between two polls iff the lines so far leave it started
+                    let ran = field(&s, "ran") == Some("1");
+                    let sum = field(imp, "sum").unwrap_or("0");
+                    if !ran && sum != "0" {
+                        why = format!("the lines leave the guest paused at the end of every poll, yet it executed ({} states)", sum);
+                    } else if ran && sum == "0" {
+                        why = "the lines leave the guest started at the end of a poll, yet it never executed".into();
+                    }
                 }
             }
             // outgoing framing (TCP cases): the receiver recovers exactly the emitted messages, in order
